@@ -83,8 +83,9 @@ func spacedHex(s string) []byte {
 	return b
 }
 
-// vectors replays cyclist/testdata/*.txt: the harness side answers `want` with the published
-// value, the model side with what it computed on the line before.
+// vectors replays cyclist/testdata/*.txt: the published value rides on the operation as a last
+// word `=<hex>`; the run side appends " !vector" when the real code's output differs from it, the
+// model ignores the word, so a deviation of either side from the vector shows in the diff.
 func vectors(g *GenCtx) {
 	files, _ := filepath.Glob(filepath.Join(repoDir(), "cyclist", "testdata", "*.txt"))
 	for _, fn := range files {
@@ -110,15 +111,15 @@ func vectors(g *GenCtx) {
 				g.Op("absorb %s", HexOrDash(val))
 			case "squeeze":
 				n, _ := strconv.Atoi(m[2])
-				g.Op("sq %d", n)
 				if len(val) > 0 {
-					g.Op("want %s", HexOrDash(val))
+					g.Op("sq %d =%s", n, HexOrDash(val))
+				} else {
+					g.Op("sq %d", n)
 				}
 			case "encrypt-ir", "encrypt-ri":
 				prev = val
 			case "decrypt-ir", "decrypt-ri":
-				g.Op("enc %s", HexOrDash(prev))
-				g.Op("want %s", HexOrDash(val))
+				g.Op("enc %s =%s", HexOrDash(prev), HexOrDash(val))
 			}
 		}
 	}
@@ -260,9 +261,9 @@ func malformed(g *GenCtx) {
 	g.Op("new")
 	g.Op("init 000102030405060708090a0b0c0d0e0f - -")
 	for _, l := range []string{
-		"enc", "enc zz", "enc 0", "enc 01 02", "dec 0g", "absorb", "absorb 123", "sq", "sq x", "sq -1", "sq 1 2",
+		"enc", "=00", "enc =00", "enc zz", "enc 0", "enc 01 02", "dec 0g", "absorb", "absorb 123", "sq", "sq x", "sq -1", "sq 1 2",
 		"sqk", "sqk 0x10", "ratchet 1", "init", "init 00", "init 00 00", "init 00 00 00 00", "init 0 - -",
-		"empty 1", "frobnicate", "want", "ENC 00", "new 1",
+		"empty 1", "frobnicate", "want 00", "ENC 00", "new 1",
 	} {
 		g.Op("%s", l)
 		if g.R.Chance(1, 2) {
@@ -283,17 +284,11 @@ func run(in *bufio.Scanner, out *bufio.Writer) {
 	p := pair{cyclist.NewCyclist(), cyclist.NewCyclist()}
 	for in.Scan() {
 		f := strings.Fields(in.Text())
-		res := "bad-op"
-		if len(f) == 2 && f[0] == "want" {
-			if _, ok := Unhex(f[1]); ok {
-				res = strings.ToLower(f[1])
-			}
-			// informational on this side: the published value
-			out.WriteString(res)
-			out.WriteByte('\n')
-			continue
+		f, expect := StripExpect(f)
+		res := p.exec(f)
+		if expect != "" && res != "bad-op" && res != expect {
+			res += " !vector"
 		}
-		res = p.exec(f)
 		out.WriteString(res)
 		out.WriteByte('\n')
 	}
